@@ -39,12 +39,17 @@ Intersp(s, sep) == IF Len(s) <= 1 THEN s ELSE <<Head(s), sep>> \o Intersp(Tail(s
 RECURSIVE ChunkSeq(_, _)
 ChunkSeq(s, n) == IF s = <<>> THEN <<>> ELSE <<T(SubSeq(s, 1, Min(n, Len(s))))>> \o ChunkSeq(SubSeq(s, Min(n, Len(s)) + 1, Len(s)), n)
 
+\* the test function of takew (take with a test function) is |x| x != 3; PassLen: length of the longest prefix that passes it
+PassLen(s) == LET F == {i \in 1 .. Len(s) : VEq(s[i], I(3))} IN IF F = {} THEN Len(s) ELSE (CHOOSE i \in F : \A j \in F : i <= j) - 1
+
 (* the definition; for `cycle` the first `lim` elements of the infinite sequence *)
 Def(ad, s, lim) ==
     CASE ad.a = "each"      -> [i \in 1 .. Len(s) |-> T(<<s[i], I(7)>>)]
       [] ad.a = "keep"      -> SelectSeq(s, LAMBDA x : ~VEq(x, I(2)))
       [] ad.a = "skip"      -> SubSeq(s, Min(ad.n, Len(s)) + 1, Len(s))
       [] ad.a = "take"      -> SubSeq(s, 1, Min(ad.n, Len(s)))
+      \* docs: take with a test function -- values while they pass the test
+      [] ad.a = "takew"     -> SubSeq(s, 1, PassLen(s))
       [] ad.a = "step"      -> [i \in 1 .. ((Len(s) + ad.n - 1) \div ad.n) |-> s[(i - 1) * ad.n + 1]]
       [] ad.a = "enumerate" -> [i \in 1 .. Len(s) |-> T(<<I(i - 1), s[i]>>)]
       [] ad.a = "chunks"    -> ChunkSeq(s, ad.n)
@@ -114,6 +119,12 @@ Pull(st, k) ==
       [] ad.a = "take" ->
             (IF ad.rem = 0 THEN [st |-> st, out |-> None]
              ELSE LET r == Pull(st, k - 1) IN [st |-> Set(r.st, [ad EXCEPT !.rem = @ - 1]), out |-> r.out])
+      [] ad.a = "takew" ->
+            (IF ad.done THEN [st |-> st, out |-> None]
+             ELSE LET r == Pull(st, k - 1) IN
+                  \* finished once a value fails the test; the end of the input is passed on as it is
+                  IF ~r.out.some \/ ~VEq(r.out.v, I(3)) THEN r
+                  ELSE [st |-> Set(r.st, [ad EXCEPT !.done = TRUE]), out |-> None])
       [] ad.a = "step" ->      \* yields the next value, then steps over the following n - 1 (the docs do not say
                                \* when; the machine reads ahead right away, and also after the end: an upper bound)
             (LET r == Pull(st, k - 1) IN [st |-> PullAlways(r.st, k - 1, ad.n - 1), out |-> r.out])
@@ -196,7 +207,7 @@ FirstPos(s, v) == LET S == {i \in 1 .. Len(s) : VEq(s[i], v)} IN IF S = {} THEN 
 (***************************************************************************)
 (* Scope and generation.                                                   *)
 (***************************************************************************)
-Adaptors == {[a |-> "each", n |-> 0], [a |-> "keep", n |-> 0], [a |-> "enumerate", n |-> 0], [a |-> "intersperse", n |-> 0],
+Adaptors == {[a |-> "each", n |-> 0], [a |-> "keep", n |-> 0], [a |-> "takew", n |-> 0], [a |-> "enumerate", n |-> 0], [a |-> "intersperse", n |-> 0],
              [a |-> "chain", n |-> 0], [a |-> "zip", n |-> 0], [a |-> "flatten", n |-> 0], [a |-> "reversed", n |-> 0],
              [a |-> "peekable", n |-> 0], [a |-> "cycle", n |-> 0]}
             \cup {[a |-> x, n |-> k] : x \in {"skip", "take"}, k \in {0, 1, 2, 5}}
@@ -211,7 +222,7 @@ Pulls == 9          \* number of stepwise `next` calls of the stepwise consumer
 
 \* Depth 3 is explored on a fixed slice of the product (every pipeline whose three adaptors contain a size-changing one in
 \* the middle and whose source length is 3 or MaxLen): the full product at depth 3 does not finish in a check's time
-Depth3Ok(p, len) == /\ p[2].a \in {"skip", "take", "step", "chunks", "windows", "keep", "flatten", "peekable", "reversed"}
+Depth3Ok(p, len) == /\ p[2].a \in {"skip", "take", "takew", "step", "chunks", "windows", "keep", "flatten", "peekable", "reversed"}
                     /\ p[1].a # "cycle" /\ p[3].a # "cycle"
                     /\ len \in {3, MaxLen}
 
@@ -233,6 +244,22 @@ Stepwise(st, i, acc) ==
                                                            S2(k) == IF k = 0 THEN 0
                                                                     ELSE (IF r.st.ad[k].a \in {"chain", "zip"} THEN r.st.ad[k].idx ELSE 0) + S2(k - 1)
                                                        IN S2(Len(pipe))]))
+
+(* both ends: a pipeline of bidirectional adaptors pulled from the front and the back in turn (iterator.next_back) *)
+AllBidi == \A k \in 1 .. Len(pipe) : Bidirectional(pipe[k])
+Ends == <<"f", "b", "b", "f", "b", "f", "f", "b">>
+RECURSIVE BothEnds(_, _, _)
+BothEnds(st, i, acc) ==
+    IF i > Len(Ends) THEN acc
+    ELSE LET r == IF Ends[i] = "f" THEN Pull(st, Len(pipe)) ELSE PullBack(st, Len(pipe)) IN
+         BothEnds(r.st, i + 1, Append(acc, r.out))
+\* the definition: the two ends of the defined sequence are consumed towards each other, and never cross
+RECURSIVE DequeRead(_, _, _)
+DequeRead(s, i, acc) ==
+    IF i > Len(Ends) THEN acc
+    ELSE IF s = <<>> THEN DequeRead(s, i + 1, Append(acc, None))
+    ELSE IF Ends[i] = "f" THEN DequeRead(Tail(s), i + 1, Append(acc, Some(Head(s))))
+    ELSE DequeRead(SubSeq(s, 1, Len(s) - 1), i + 1, Append(acc, Some(s[Len(s)])))
 
 HasCycle == \E k \in 1 .. Len(pipe) : pipe[k].a = "cycle"
 
@@ -257,7 +284,15 @@ Check ==
         \* the source is pulled in order, each element at most once (front pulls ascending, back pulls descending)
         /\ Assert(\A i \in 1 .. Len(lastlog) : \A j \in (i + 1) .. Len(lastlog) : lastlog[i] # lastlog[j],
                   <<"PullsEachOnce", pipe, n, lastlog>>)
+        /\ Assert(AllBidi => LET m == BothEnds(InitSt(TRUE), 1, <<>>)
+                                  d == DequeRead(defn, 1, <<>>)
+                              IN \A i \in 1 .. Len(Ends) : m[i].some = d[i].some /\ (m[i].some => VEq(m[i].v, d[i].v)),
+                  <<"BothEndsEqualDefinition", pipe, n>>)
         /\ PrintT(<<"PIPE", ToJson([pipe |-> pipe, n |-> n,
+                                    ends |-> IF AllBidi THEN Ends ELSE <<>>,
+                                    both |-> IF AllBidi THEN LET d == DequeRead(defn, 1, <<>>) IN
+                                                             [i \in 1 .. Len(Ends) |-> [some |-> d[i].some, v |-> IF d[i].some THEN d[i].v ELSE I(0)]]
+                                             ELSE <<>>,
                                     steps |-> [i \in 1 .. Len(steps) |-> [some |-> steps[i].out.some,
                                                                           v |-> IF steps[i].out.some THEN steps[i].out.v ELSE I(0),
                                                                           pulls |-> steps[i].pulls, pulls2 |-> steps[i].pulls2]],
